@@ -584,7 +584,10 @@ class StrategyBase(Node):
 
             paper = deepcopy(self)
             paper.parent = paper
-            paper.root = paper
+            # make the copy the root of its whole subtree (its children
+            # still point to the copied original root, whose 'now' and
+            # 'stale' flag never change)
+            paper._set_root(paper)
             paper._paper_trade = False
             paper.setup(self._original_data, **kwargs)
             paper.adjust(self._paper_amount)
